@@ -762,24 +762,64 @@ func (ts *Terms) Defs(t *Term, sb *strings.Builder) {
 		n := f.t
 		stack = stack[:len(stack)-1]
 		n.emitted = true
-		fmt.Fprintf(sb, "(define-fun n%d () %s ", n.ID, sortStr(n.W))
-		switch n.Op {
-		case OpZExt:
-			fmt.Fprintf(sb, "((_ zero_extend %d) %s)", n.W-n.Args[0].W, ts.ref(n.Args[0]))
-		case OpSExt:
-			fmt.Fprintf(sb, "((_ sign_extend %d) %s)", n.W-n.Args[0].W, ts.ref(n.Args[0]))
-		case OpTrunc:
-			fmt.Fprintf(sb, "((_ extract %d 0) %s)", n.W-1, ts.ref(n.Args[0]))
-		default:
-			sb.WriteString("(")
-			sb.WriteString(opSMT[n.Op])
-			for i := uint8(0); i < n.NArg; i++ {
-				sb.WriteString(" ")
-				sb.WriteString(ts.ref(n.Args[i]))
-			}
-			sb.WriteString(")")
+		ts.defLine(n, sb)
+	}
+}
+
+func (ts *Terms) defLine(n *Term, sb *strings.Builder) {
+	fmt.Fprintf(sb, "(define-fun n%d () %s ", n.ID, sortStr(n.W))
+	switch n.Op {
+	case OpZExt:
+		fmt.Fprintf(sb, "((_ zero_extend %d) %s)", n.W-n.Args[0].W, ts.ref(n.Args[0]))
+	case OpSExt:
+		fmt.Fprintf(sb, "((_ sign_extend %d) %s)", n.W-n.Args[0].W, ts.ref(n.Args[0]))
+	case OpTrunc:
+		fmt.Fprintf(sb, "((_ extract %d 0) %s)", n.W-1, ts.ref(n.Args[0]))
+	default:
+		sb.WriteString("(")
+		sb.WriteString(opSMT[n.Op])
+		for i := uint8(0); i < n.NArg; i++ {
+			sb.WriteString(" ")
+			sb.WriteString(ts.ref(n.Args[i]))
 		}
-		sb.WriteString(")\n")
+		sb.WriteString(")")
+	}
+	sb.WriteString(")\n")
+}
+
+// DefsAll returns define-fun lines for every node under t (independent of
+// what was sent to the incremental solver).
+func (ts *Terms) DefsAll(t *Term, sb *strings.Builder) {
+	seen := map[*Term]bool{}
+	var rec func(n *Term)
+	var order []*Term
+	// iterative DFS to avoid deep recursion
+	type fr struct {
+		t *Term
+		i uint8
+	}
+	stack := []fr{{t, 0}}
+	for len(stack) > 0 {
+		f := &stack[len(stack)-1]
+		if seen[f.t] || f.t.Op == OpConst || f.t.Op == OpVar {
+			stack = stack[:len(stack)-1]
+			continue
+		}
+		if f.i < f.t.NArg {
+			a := f.t.Args[f.i]
+			f.i++
+			if !seen[a] && a.Op != OpConst && a.Op != OpVar {
+				stack = append(stack, fr{a, 0})
+			}
+			continue
+		}
+		seen[f.t] = true
+		order = append(order, f.t)
+		stack = stack[:len(stack)-1]
+	}
+	_ = rec
+	for _, n := range order {
+		ts.defLine(n, sb)
 	}
 }
 
